@@ -424,7 +424,10 @@ fn not_program(s: &mut dyn Src) -> Program {
 impl Property for SolverProp {
     fn id(&self) -> &'static str { self.id }
     fn max_len(&self) -> usize { 256 }
-    fn budget(&self) -> (u64, u64) { (2500, 60_000) }
+    fn budget(&self) -> (u64, u64) {
+        // quick tiers sized to 10-20 s of wall time with 16 workers (C01 and C03 also enumerate a family)
+        match self.aspect { Aspect::Answers | Aspect::Not => (2500, 60_000), Aspect::Renaming => (4000, 60_000), _ => (10_000, 60_000) }
+    }
 
     fn check(&self, src: &mut dyn Src, rep: &mut Report) -> CaseResult {
         let (p, family) = gen_any_program(src, features(self.aspect));
